@@ -4,10 +4,10 @@
    simulaqron/sdk/connection.py:330-347      (SimulaQronNetworkInfo._get_node_id / _get_node_name)
 
    Executable definitions only; proofs are in Conf/Assoc.v, Conf/Sort.v, Conf/Invariant.v, Conf/Ids.v.
-   The model describes the code *with the repairs D11, D12, D17 applied* (see notes/C16.md):
+   The model describes the code *with the repairs D11, D12, D19 applied* (see notes/C16.md):
      D11  remove_node also deletes the node from the topology (key and neighbour lists)
      D12  _get_node_name is the inverse of _get_node_id (index in the sorted name list)
-     D17  _get_unused_port raises ValueError when no port is left instead of returning None
+     D19  _get_unused_port raises ValueError when no port is left instead of returning None
    Python dicts are insertion-ordered; they are modelled as association lists in that order
    (`aset` overwrites in place or appends, exactly as `d[k] = v` does). *)
 From Coq Require Import List Bool Arith NArith String.
@@ -95,7 +95,7 @@ Section WithOS.
     match p with
     | None => match first_free h' usd k port_range with
               | (Some q, k') => (Some (h', q), usd ++ [(h', q)], k')
-              | (None, k') => (None, usd, k')                                  (* D17 repaired: raise *)
+              | (None, k') => (None, usd, k')                                  (* D19 repaired: raise *)
               end
     | Some q => if mem_ep (h', q) usd then (None, usd, k)
                 else if os_free k q then (Some (h', q), usd ++ [(h', q)], S k) else (None, usd, S k)
